@@ -1322,7 +1322,12 @@ namespace bloch::runtime {
             m_currentClassCtx = cls;
             slot = defaultValueForField(field, cls->name);
             if (field.hasInitializer && field.initializer) {
-                slot = eval(field.initializer);
+                // Own frame: a generic class is initialised when it is first instantiated, which
+                // may be in the middle of a function whose locals must not be visible here.
+                beginFrame();
+                Value init = eval(field.initializer);
+                endFrame();
+                cls->staticStorage[i] = init;
             }
             m_inStaticContext = prevStatic;
             m_currentClassCtx = prevClass;
